@@ -71,6 +71,18 @@ def c09_scripts(ctx):
     sc += tfile_scripts(ctx, modes=("whole", "rand"))
     sc += handover_scripts(ctx, 300 if ctx.tier == "quick" else 12000)
     sc += lib.load_fuzz_corpus(ctx, 1500, "C09")
+    # request lines with unusual delimiters, with and without htp_config_set_allow_space_uri (the two line-splitting paths of
+    # htp_parse_request_line_generic_ex), NUL-terminating personalities included
+    rng = ctx.rng
+    for _ in range(150 if ctx.tier == "quick" else 3000):
+        line = rng.choice((b"GET /a b c HTTP/1.1", b"GET\t/x\tHTTP/1.1", b"GET  /two  HTTP/1.0", b"GET /a\tb HTTP/1.1", b"GET /trail HTTP/1.1 \t", b" \tGET /lead HTTP/1.1",
+                           b"GET /nul\x00rest HTTP/1.1", b"GET /only", b"GET", b"GET ", b"GET /x y", b"GET /x y ", b"POST /a b\tc d HTTP/1.1", b"GET /a\x0bb HTTP/1.1",
+                           b"GET /a\x0cb\x0bc HTTP/1.1", b"M-SEARCH * HTTP/1.1", b"GET http://h/a b HTTP/1.1", b"GET /%20 %20 HTTP/0.9"))
+        R = line + rng.choice((b"\r\n", b"\n")) + b"Host: h\r\n\r\n"
+        cfg = rng.choice(("respdecomp=0,spaceuri=1", "respdecomp=0", "p=IIS_6_0,respdecomp=0,spaceuri=1", "p=APACHE_2,respdecomp=0,spaceuri=1", "p=IIS_6_0,respdecomp=0"))
+        items = [">" + traffic.hx(p) for p in traffic.chunkings(R, rng, rng.choice(("whole", "rand", "bytes")))] + \
+                ["<" + traffic.hx(b"HTTP/1.1 200 OK\r\nContent-Length: 0\r\n\r\n")]
+        sc.append(traffic.script(cfg, "-", items))
     return sc
 
 
@@ -150,7 +162,9 @@ def c05_scripts(ctx):
     for _ in range(150 if ctx.tier == "quick" else 3000):
         stray = rng.choice((b"junk\r\n", b"xyz abc def\r\n", b"\r\n", b"HTTP\r\n", b"http/1.1\r\n", b"200 OK\r\n", b"x\n", b"\x00\x01\r\n"))
         real = rng.choice((b"HTTP/1.1 204 No Content\r\n\r\n", b"HTTP/1.1 200 OK\r\nContent-Length: 2\r\n\r\nok", b"http/1.1 204 No Content\r\nX: y\r\n\r\n",
-                           b"HTTP/1.1 200 OK\r\nTransfer-Encoding: chunked\r\n\r\n1\r\na\r\n0\r\n\r\n", b"HTTP/1.0 200 OK\r\n\r\nbody", b"HTTP/1.1 100 Continue\r\n\r\nHTTP/1.1 200 OK\r\nContent-Length: 0\r\n\r\n"))
+                           b"HTTP/1.1 200 OK\r\nTransfer-Encoding: chunked\r\n\r\n1\r\na\r\n0\r\n\r\n", b"HTTP/1.0 200 OK\r\n\r\nbody", b"HTTP/1.1 100 Continue\r\n\r\nHTTP/1.1 200 OK\r\nContent-Length: 0\r\n\r\n",
+                           b"HTTP/1.1 206 Partial Content\r\nContent-Type: multipart/byteranges; boundary=x\r\n\r\n--x\r\n\r\nab\r\n--x--\r\n",
+                           b"HTTP/1.1 206 Partial Content\r\nContent-Type: Multipart/ByteRanges\r\nContent-Length: 2\r\n\r\nab"))
         S = rng.choice((stray + real, real + stray, stray + stray + real, real[:rng.randint(1, len(real))] + stray + real))
         R = rng.choice((b"GET /s HTTP/1.1\r\nHost: h\r\n\r\n", b"\r\nGET /s HTTP/1.1\r\nHost: h\r\n\r\n", b"junk\r\nGET /s HTTP/1.1\r\nHost: h\r\n\r\n", b"GET /s HTTP/1.1\r\nHost: h\r\n\r\nGET /t HTTP/1.1\r\nHost: h\r\n\r\n"))
         items = [">" + traffic.hx(p) for p in traffic.chunkings(R, rng, rng.choice(("whole", "rand")))] + \
@@ -872,6 +886,8 @@ def c10_scripts(ctx):
         hard = rng.choice((1, 2, 17, 100, 100, 18000))
         maxtx = rng.choice((0, 0, 1, 2, 5))
         kind = rng.choice(("longline", "folds", "repeats", "manytx", "mixed", "chunkline", "resline", "pipefreed"))
+        if len(out) in (7, 19):
+            kind = "bigfold"      # exactly two per run: they are expensive
         if kind == "pipefreed":
             # pipelined requests, responses one by one, htp_connp_tx_freed after each completion, dump after every step (model-corresponded)
             k = rng.randint(2, 4)
@@ -895,6 +911,14 @@ def c10_scripts(ctx):
             k = rng.choice((1, 3, 40, 300))
             R = b"GET / HTTP/1.1\r\nHost: h\r\nX-F: a" + b"".join(b"\r\n " + b"f" * rng.randint(1, 30) for _ in range(k)) + b"\r\n\r\n"
             S = b"HTTP/1.1 200 OK\r\nX-F: a" + b"".join(b"\r\n\t" + b"g" * rng.randint(1, 30) for _ in range(k)) + b"\r\nContent-Length: 0\r\n\r\n"
+        elif kind == "bigfold":
+            # a folded header that grows past the documented cap of 102400 bytes: it must stop growing (by at most the line that crosses it)
+            hard = 1000000      # the hard limit counts the pending folded header too: it must not be what stops the growth here
+            ll = rng.choice((6000, 9000))
+            k = rng.choice((40, 50))
+            side = "req" if len(out) == 7 else "res"
+            R = b"GET / HTTP/1.1\r\nHost: h\r\nX-F: a" + (b"".join(b"\r\n " + b"f" * ll for _ in range(k)) if side != "res" else b"") + b"\r\n\r\n"
+            S = b"HTTP/1.1 200 OK\r\nX-F: a" + (b"".join(b"\r\n\t" + b"g" * ll for _ in range(k)) if side != "req" else b"") + b"\r\nContent-Length: 0\r\n\r\n"
         elif kind == "repeats":
             k = rng.choice((2, 10, 70, 200))
             R = b"GET / HTTP/1.1\r\nHost: h\r\n" + b"".join(rng.choice((b"X-R", b"x-r", b"X-Q")) + b": v%d\r\n" % i for i in range(k)) + b"\r\n"
@@ -913,19 +937,31 @@ def c10_scripts(ctx):
         else:
             reqs, ress, rq, rs = traffic.gen_exchange(rng, opts=OPTS)
             R, S = traffic.mutate(b"".join(rq), rng), traffic.mutate(b"".join(rs), rng)
-        rp = traffic.chunkings(R, rng, rng.choice(("rand", "rand", "bytes", ("cut", rng.randint(1, max(1, len(R) - 1))))))
-        sp = traffic.chunkings(S, rng, rng.choice(("rand", "rand", "bytes", "whole")))
-        if len(rp) + len(sp) > 400:
+        if kind == "bigfold":
+            # a few large pieces (one call per line would be 40 calls; byte-wise delivery of 300 kB is pointless here)
+            # (pieces of about 1 kB: the list-based model indexes into the chunk, large chunks make it quadratic)
+            def few(data):
+                out_, pos = [], 0
+                while pos < len(data):
+                    n_ = rng.randint(500, 1500)
+                    out_.append(data[pos:pos + n_]); pos += n_
+                return out_
+            rp, sp = few(R), few(S)
+        else:
+            rp = traffic.chunkings(R, rng, rng.choice(("rand", "rand", "bytes", ("cut", rng.randint(1, max(1, len(R) - 1))))))
+            sp = traffic.chunkings(S, rng, rng.choice(("rand", "rand", "bytes", "whole")))
+        if len(rp) + len(sp) > 400 and kind != "bigfold":
             rp = traffic.chunkings(R, rng, "rand"); sp = traffic.chunkings(S, rng, "rand")
         cfg = "respdecomp=0,hard=%d,soft=%d" % (hard, max(hard // 2, 1)) + (",maxtx=%d" % maxtx if maxtx else "")
         sc = ["conn new %s -" % cfg, "conn open"]
+        every = kind != "bigfold"      # the 100 kB headers make every dump expensive: one dump at the end for those
         for p in rp:
-            sc += ["conn req " + traffic.hx(p), "conn dump"]
+            sc += ["conn req " + traffic.hx(p)] + (["conn dump"] if every else [])
         for p in sp:
-            sc += ["conn res " + traffic.hx(p), "conn dump"]
+            sc += ["conn res " + traffic.hx(p)] + (["conn dump"] if every else [])
         sc += ["conn close", "conn dump", "conn destroy"]
         out.append(sc)
-        meta.append({"hard": hard, "maxtx": maxtx, "kind": kind})
+        meta.append({"hard": hard, "maxtx": maxtx, "kind": kind, "maxline": (ll + 4) if kind == "bigfold" else None})
     return out, meta
 
 
@@ -953,13 +989,20 @@ def make_c10_oracle(by_id):
                 if v not in (None, "~") and int(v) > w["hard"]:
                     found.append(("retained-over-hard", "%s=%s bytes retained between calls with field_limit_hard=%d" % (key, v, w["hard"])))
                 hv = g.get(hk)
-                if hv not in (None, "~") and int(hv) > MAX_FOLDED + w["hard"] + 70000:
-                    found.append(("folded-over-cap", "%s=%s" % (hk, hv)))
+                slack = w["maxline"] if w.get("maxline") else w["hard"] + 70000
+                if hv not in (None, "~") and int(hv) > MAX_FOLDED + slack:
+                    found.append(("folded-over-cap", "%s=%s bytes: the pending folded header exceeds the cap of %d by more than one line (%d)" % (hk, hv, MAX_FOLDED, slack)))
             if w["maxtx"] and int(g["ntx"]) > w["maxtx"] + 1:
                 found.append(("over-max-tx", "%s transactions held with max_tx=%d" % (g["ntx"], w["maxtx"])))
             for t_ in slots:
                 if t_ and (int(t_["rep"]) > MAX_REPS or int(t_["srep"]) > MAX_REPS):
                     found.append(("over-repetitions", "repetition counters %s/%s" % (t_["rep"], t_["srep"])))
+                if t_ and w.get("maxline"):
+                    for hk2 in ("rh", "sh"):
+                        for n_, v_, f_ in cl.headers_of(t_, hk2):
+                            if len(v_) > MAX_FOLDED + w["maxline"]:
+                                found.append(("folded-over-cap", "a %s header assembled from folded lines holds %d bytes: cap %d + one line (%d)" % (
+                                    "request" if hk2 == "rh" else "response", len(v_), MAX_FOLDED, w["maxline"])))
         return found
     return oracle
 
